@@ -301,31 +301,41 @@ theorem C09_public_pair_coords (S : Setting g) (hodd : g.c.n % 2 = 1) {s : Nat} 
     (hpub : g.mul (s : Int) = .ok (some pp)) : 0 ≤ pp.1 ∧ pp.1 < g.c.p ∧ 0 < pp.2 ∧ pp.2 < g.c.p :=
   pub_coords S hodd hpub
 
-/-- the prefix table, whole: on every network of `Gen/Networks` whose Base58Check is double-SHA-256 and for each of
-bip32 / bip49 / bip84, either the network defines neither prefix, or `bipNN_as_string` prepends exactly the prefixes
-`ParseAPI` tests for and both are 4 bytes long (`decide` over the table regenerated from the source on every run).
+/-- the prefix table, whole: on EVERY network of `Gen/Networks` (the Groestlcoin family with its own checksum hash
+included) and for each of bip32 / bip49 / bip84, either the network defines neither prefix, or `bipNN_as_string` prepends
+exactly the prefixes `ParseAPI` tests for, both are 4 bytes long, and the closure writes its text under the checksum hash
+the network's `parse_b58_hashed` accepts (`decide` over the table regenerated from the source on every run; the hash of
+each closure and of the parser is found by probing).
 That the private and the public prefix differ is not needed: `deserialize` tells the two by byte 45. -/
-theorem C09_prefix_table : ∀ net ∈ Pycoin.Gen.Networks.all, net.b58DoubleSha = true →
+theorem C09_prefix_table : ∀ net ∈ Pycoin.Gen.Networks.all,
     prefixesOk net .bip32 = true ∧ prefixesOk net .bip49 = true ∧ prefixesOk net .bip84 = true :=
   prefix_table
 
-/-- **hwif_rt.** Every network of the generated table (double-SHA-256 Base58Check) and every prefix kind it
+/-- the three Groestlcoin networks are in the table, define all three prefix kinds, and use the Groestl checksum hash for
+each (so the Groestl case of `C09_hwif_rt` is not vacuous) -/
+theorem C09_prefix_table_groestl :
+    ∀ sym ∈ ["GRS", "TGRS", "GRSRT"], ∃ net ∈ Pycoin.Gen.Networks.all, net.symbol = sym ∧ net.hashParse = .groestl ∧
+      ∀ k ∈ [Kind.bip32, Kind.bip49, Kind.bip84], outHash net k = .groestl ∧ (parsePrefix net k true).isSome = true := by
+  decide +kernel
+
+/-- **hwif_rt.** EVERY network of the generated table (whatever its checksum hash) and every prefix kind it
 defines — bip32, bip49, bip84; `a` is its private prefix —, every constructed private node of that class with
 depth ≤ 255 and child number < 2³²:
 * `hwif(as_private=True)` is a text that `network.parse.bipNN` maps back to the node, every field preserved;
 * `hwif(as_private=False)` is a text that `network.parse.bipNN` maps to the node without its exponent
   (the private prefix is tried first; equally long, it either does not match or — were the two prefixes equal — the
   private attempt itself returns the public node, byte 45 deciding).
-Uses the C11 Base58Check round trip. -/
+Uses the Base58Check round trip for the network's checksum hash (`Proofs/Base58Hash.lean`: C11's Base58 round trip; of
+the hash only that it yields 32 bytes). -/
 theorem C09_hwif_rt (S : Setting g) (hodd : g.c.n % 2 = 1) (h4 : g.c.p % 4 = 3) (hbc : byteCount g.c.p = 32)
-    (net : Network) (hmem : net ∈ Pycoin.Gen.Networks.all) (hnet : net.b58DoubleSha = true)
+    (net : Network) (hmem : net ∈ Pycoin.Gen.Networks.all)
     (n : Node) (se : Int) (hv : n.Valid g) (hse : n.secretExponent = some se)
     (hd : n.depth ≤ 255) (hi : n.childIndex < 2 ^ 32) {a : Bytes} (ha : parsePrefix net n.kind true = some a) :
-    (∃ text, hwif net n true = some (.ok text) ∧ parseBip g net n.kind text = .ok (some n)) ∧
-    (∃ text, hwif net n false = some (.ok text) ∧
+    (∃ text, hwif net n true = .ok text ∧ parseBip g net n.kind text = .ok (some n)) ∧
+    (∃ text, hwif net n false = .ok text ∧
       parseBip g net n.kind text = .ok (some { n with secretExponent := none })) := by
   have hok : prefixesOk net n.kind = true := by
-    obtain ⟨t1, t2, t3⟩ := prefix_table net hmem hnet
+    obtain ⟨t1, t2, t3⟩ := prefix_table net hmem
     cases hk : n.kind <;> assumption
   have hv' := hv
   unfold Node.Valid at hv'
@@ -337,23 +347,23 @@ theorem C09_hwif_rt (S : Setting g) (hodd : g.c.n % 2 = 1) (h4 : g.c.p % 4 = 3) 
   have hx256 : n.publicPair.1 < 2 ^ 256 := by
     have : (g.c.p : Int) ≤ 2 ^ 256 := by exact_mod_cast S.hp256
     omega
-  exact ⟨hwif_rt_private net hnet n s hv hse hd hi S.hn256 hok ha,
-    hwif_rt_public h4 hbc net hnet n hv hd hi x0 hx256 x1 y0 y1 hok ha⟩
+  exact ⟨hwif_rt_private net n s hv hse hd hi S.hn256 hok ha,
+    hwif_rt_public h4 hbc net n hv hd hi x0 hx256 x1 y0 y1 hok ha⟩
 
 /-- **hwif_rt for a public-only node** with coordinates as in `C09_public_pair_coords` -/
 theorem C09_hwif_rt_public_node (S : Setting g) (h4 : g.c.p % 4 = 3) (hbc : byteCount g.c.p = 32)
-    (net : Network) (hmem : net ∈ Pycoin.Gen.Networks.all) (hnet : net.b58DoubleSha = true)
+    (net : Network) (hmem : net ∈ Pycoin.Gen.Networks.all)
     (n : Node) (hv : n.Valid g) (hpubn : n.secretExponent = none) (hd : n.depth ≤ 255) (hi : n.childIndex < 2 ^ 32)
     (hx0 : 0 ≤ n.publicPair.1) (hx1 : n.publicPair.1 < g.c.p) (hy0 : 0 < n.publicPair.2) (hy1 : n.publicPair.2 < g.c.p)
     {a : Bytes} (ha : parsePrefix net n.kind true = some a) :
-    ∃ text, hwif net n false = some (.ok text) ∧ parseBip g net n.kind text = .ok (some n) := by
+    ∃ text, hwif net n false = .ok text ∧ parseBip g net n.kind text = .ok (some n) := by
   have hok : prefixesOk net n.kind = true := by
-    obtain ⟨t1, t2, t3⟩ := prefix_table net hmem hnet
+    obtain ⟨t1, t2, t3⟩ := prefix_table net hmem
     cases hk : n.kind <;> assumption
   have hx256 : n.publicPair.1 < 2 ^ 256 := by
     have : (g.c.p : Int) ≤ 2 ^ 256 := by exact_mod_cast S.hp256
     omega
-  obtain ⟨text, t1, t2⟩ := hwif_rt_public h4 hbc net hnet n hv hd hi hx0 hx256 hx1 hy0 hy1 hok ha
+  obtain ⟨text, t1, t2⟩ := hwif_rt_public h4 hbc net n hv hd hi hx0 hx256 hx1 hy0 hy1 hok ha
   refine ⟨text, t1, ?_⟩
   rw [t2]
   cases n
@@ -683,14 +693,14 @@ theorem C09_ckd_commute_secp256k1 (bf : Int) (tbl : List Pt) (m : Pt)
 /-- … and the text round trip on every network of the table, for every prefix kind it defines -/
 theorem C09_hwif_rt_secp256k1 (bf : Int) (tbl : List Pt) (m : Pt)
     (hg : Gen.new secp256k1 bf = .ok ⟨secp256k1, bf, tbl, m⟩)
-    (net : Network) (hmem : net ∈ Pycoin.Gen.Networks.all) (hnet : net.b58DoubleSha = true)
+    (net : Network) (hmem : net ∈ Pycoin.Gen.Networks.all)
     (n : Node) (se : Int) (hv : n.Valid ⟨secp256k1, bf, tbl, m⟩) (hse : n.secretExponent = some se)
     (hd : n.depth ≤ 255) (hi : n.childIndex < 2 ^ 32) {a : Bytes} (ha : parsePrefix net n.kind true = some a) :
-    (∃ text, hwif net n true = some (.ok text) ∧ parseBip ⟨secp256k1, bf, tbl, m⟩ net n.kind text = .ok (some n)) ∧
-    (∃ text, hwif net n false = some (.ok text) ∧
+    (∃ text, hwif net n true = .ok text ∧ parseBip ⟨secp256k1, bf, tbl, m⟩ net n.kind text = .ok (some n)) ∧
+    (∃ text, hwif net n false = .ok text ∧
       parseBip ⟨secp256k1, bf, tbl, m⟩ net n.kind text = .ok (some { n with secretExponent := none })) :=
   C09_hwif_rt (g := ⟨secp256k1, bf, tbl, m⟩) (setting_secp256k1 bf tbl m hg) C09_secp256k1_side_conditions.1
-    C09_secp256k1_side_conditions.2.1 C09_secp256k1_side_conditions.2.2 net hmem hnet n se hv hse hd hi ha
+    C09_secp256k1_side_conditions.2.1 C09_secp256k1_side_conditions.2.2 net hmem n se hv hse hd hi ha
 
 end shipped
 
@@ -736,12 +746,23 @@ def isOk {ε α} : Except ε α → Bool
 -- text form: BIP32 test vector 1, chain m; round trip on BTC
 #guard withMaster fun g m =>
   match hwif Pycoin.Gen.Networks.net_btc m true, hwif Pycoin.Gen.Networks.net_btc m false with
-  | some (.ok prv), some (.ok pub) =>
+  | .ok prv, .ok pub =>
     prv == "xprv9s21ZrQH143K3QTDL4LXw2F7HEK3wJUD2nW2nRk4stbPy6cq3jPPqjiChkVvvNKmPGJxWUtg6LnF5kejMRNNU3TGtRBeJgk33yuGBxrMPHi".toUTF8.toList &&
     pub == "xpub661MyMwAqRbcFtXgS5sYJABqqG9YLmC4Q1Rdap9gSE8NqtwybGhePY2gZ29ESFjqJoCu1Rupje8YtGqsefD265TMg7usUDFdp6W1EGMcet8".toUTF8.toList &&
     parseBip g Pycoin.Gen.Networks.net_btc .bip32 prv == .ok (some m) &&
     parseBip g Pycoin.Gen.Networks.net_btc .bip32 pub == (m.publicCopy g).map some
   | _, _ => false
+
+-- the same node on Groestlcoin mainnet (same 4-byte versions as BTC, the other checksum hash): round trip there, and
+-- each network refuses the other's text
+#guard withMaster fun g m =>
+  match hwif Pycoin.Gen.Networks.net_grs m true, hwif Pycoin.Gen.Networks.net_grs m false, hwif Pycoin.Gen.Networks.net_btc m true with
+  | .ok prv, .ok pub, .ok btcPrv =>
+    parseBip g Pycoin.Gen.Networks.net_grs .bip32 prv == .ok (some m) &&
+    parseBip g Pycoin.Gen.Networks.net_grs .bip32 pub == (m.publicCopy g).map some &&
+    parseBip g Pycoin.Gen.Networks.net_btc .bip32 prv == .ok none &&
+    parseBip g Pycoin.Gen.Networks.net_grs .bip32 btcPrv == .ok none && prv != btcPrv
+  | _, _, _ => false
 
 -- a call history on one node: answers equal the uncached ones
 #guard withMaster fun g m =>
